@@ -430,7 +430,17 @@ def pred_unused_phase(c):
     return any(p["id"] not in used for p in c["phases"])
 
 
-PREDICATES = {"unused_phase": pred_unused_phase, "at_most_three_points": pred_at_most_three_points, "three_points_in_data": pred_three_points_in_data,
+def pred_extra_prop_name(c):
+    ex = c["opts"].get("extra_prop") or []
+    return any((" " in e) or ("," in e) or (":" in e) or e in STD or e in ("x", "y", "prop", "phase_id") for e in ex)
+
+
+def pred_nan_or_bool_property(c):
+    return any(p["dtype"] == "bool" or any(isinstance(v, float) and v != v for v in p["vals"]) for p in c["props"])
+
+
+PREDICATES = {"unused_phase": pred_unused_phase, "extra_prop_name": pred_extra_prop_name,
+              "nan_or_bool_property": pred_nan_or_bool_property, "at_most_three_points": pred_at_most_three_points, "three_points_in_data": pred_three_points_in_data,
               "column_map": pred_column_map, "multiword_name": pred_multiword_name}
 
 
@@ -495,7 +505,7 @@ def finish_case(rng, c, subset):
 def generate(ctx):
     rng = ctx.rng
     quick = ctx.tier == "quick"
-    reps = 1 if quick else 8
+    reps = 4 if quick else 24
     pg_cycle = 0
     subset = 0
 
@@ -591,6 +601,29 @@ def generate(ctx):
             c["phase_id"][11] = c["phases"][1]["id"]
             c["keep_unused_phase"] = True
             yield from emit("known/unused_phase", c)
+        # extra property names the `Column names:` line cannot carry (known: altered, lost or crash)
+        for nm, both in (("my prop", True), (" lead", False), ("a,b", False), ("a:b", False), ("iq", False)):
+            c = G.grid_case(rng, [2, 3], nphases=1, with_structure=False,
+                            props=[(nm, "float64", 0)] + ([("dp", "float64", 0)] if nm == "iq" else []))
+            c = finish_case(rng, c, 0)
+            c["opts"]["extra_prop"] = [nm]
+            if nm == "iq":
+                c["opts"]["image_quality_prop"] = "dp"
+            ctx.count("known/extra_prop_name", ("c14x", nm))
+            if both:
+                yield "ang_corr", c
+            yield "ang_prop", c
+        # NaN values / boolean properties (known: the writer raises)
+        for kind in ("nan", "bool"):
+            c = G.grid_case(rng, [2, 3], nphases=1, with_structure=False,
+                            props=[("iq", "float64", 0)] if kind == "nan" else [("flag", "bool", 0)])
+            c = finish_case(rng, c, 0)
+            if kind == "nan":
+                c["props"][0]["vals"][0] = float("nan")
+            else:
+                c["opts"]["extra_prop"] = ["flag"]
+            ctx.count("known/nan_or_bool_property", ("c14n", kind))
+            yield "ang_prop", c
         # phases without point group / with space group
         for rep in range(4 if quick else 8):
             c = G.grid_case(rng, [3, 5], nphases=2, with_structure=False, not_indexed=0.2 * (rep % 2))
